@@ -12,7 +12,9 @@ from vf.session import ModelState, make_scratch
 PROPERTY = "C08"
 LEVEL = "fault_enumeration"
 RULE = ("for each save scenario (root setitem, nested mutator, reset, clear, update, list ops, per-object "
-        "buffered exit, backend-wide flush of 1-4 files in both strategies, capacity-forced flush) x "
+        "buffered exit, backend-wide flush of 1-4 files in both strategies, capacity-forced flush, first write of a "
+        "missing file, save through a deep copy, through a symbolic link, by an object constructed while multithreading "
+        "support was off and switched on again before the save) x "
         "atomic-mode configuration {write_concern, threading, both} the parent fork()s one child per crash "
         "point: every executed library line of the action (LINE counter), before and after every audited "
         "file-system event, and every byte prefix of the data handed to write() (RLIMIT_FSIZE with "
@@ -58,6 +60,12 @@ def scenarios(tier):
         st = [{"op": "setitem", "h": 0, "path": [], "args": ["new", {"x": [1, 2, 3]}]}] if c.endswith("Dict") else \
             [{"op": "append", "h": 0, "path": [], "args": [{"new": [1, 2, 3]}]}]
         S.append(("deepcopied_handle", c, 1, st))
+    for c in ("JSONDict", "JSONList", "BufferedJSONDict"):
+        # the object was constructed (and first used) while multithreading support was switched off; the support is
+        # switched on again before the save, so the save must be atomic whatever write_concern says
+        st = [{"op": "setitem", "h": 0, "path": [], "args": ["new", {"x": [1, 2, 3]}]}] if c.endswith("Dict") else \
+            [{"op": "append", "h": 0, "path": [], "args": [{"new": [1, 2, 3]}]}]
+        S.append(("constructed_mt_off", c, 1, st))
     for c in ("JSONDict", "BufferedJSONDict"):
         # the file name is a symbolic link to the data file
         S.append(("symlinked_file", c, 1, [{"op": "setitem", "h": 0, "path": [], "args": ["new", {"x": [1, 2, 3]}]}]))
@@ -87,6 +95,9 @@ def plan(tier, seed):
             if tier == "quick" and name == "deepcopied_handle":
                 if ci != 0:
                     continue  # quick: the configuration in which only write_concern makes the save atomic
+            elif name == "constructed_mt_off":
+                if ci != 1:
+                    continue  # only the configuration in which the threading support alone makes the save atomic
             elif tier == "quick" and (si + ci + seed) % 3 != 0 and name not in ("root_setitem", "backend_flush_3",
                                                                                  "first_write_missing_file"):
                 continue  # quick: each scenario in one configuration (rotating with the seed)
@@ -103,7 +114,7 @@ INIT_L = [1, "two", [3, 4], {"five": 5}]
 class World:
     """Files with old content, objects, the action and the expected new contents."""
 
-    def __init__(self, cls_name, cfg, nfiles, steps, missing=False, symlink=False, deepcopied=False):
+    def __init__(self, cls_name, cfg, nfiles, steps, missing=False, symlink=False, deepcopied=False, mt_off_ctor=False):
         self.info = catalog.info(cls_name)
         self.cls = self.info.cls()
         self.cfg = cfg
@@ -135,9 +146,15 @@ class World:
                 c.disable_multithreading()
             self.threading_off = True
         self.reset_files()
+        if mt_off_ctor:
+            for c in self.info.family_classes():
+                c.disable_multithreading()
         self.objs = [r.new_handle(write_concern=cfg["wc"]) for r in self.res]
         for o in self.objs:
             o()  # loaded, as in normal use
+        if mt_off_ctor:
+            for c in self.info.family_classes():
+                c.enable_multithreading()
         if deepcopied:
             self.objs = [copy.deepcopy(o) for o in self.objs]
 
@@ -299,7 +316,8 @@ def run_shard(spec):
     if spec["kind"] == "crash":
         name, cls, nfiles, steps = scenarios(spec["tier"])[spec["scenario"]]
         world = World(cls, spec["cfg"], nfiles, steps, missing=name == "first_write_missing_file",
-                      symlink=name == "symlinked_file", deepcopied=name == "deepcopied_handle")
+                      symlink=name == "symlinked_file", deepcopied=name == "deepcopied_handle",
+                      mt_off_ctor=name == "constructed_mt_off")
         sample = {"scenario": name, "cls": cls, "cfg": spec["cfg"], "files": nfiles, "steps": steps}
         try:
             sweep(world, spec["tier"], out, {"cls": cls, "scenario": name, "stratum": "atomic"}, sample)
@@ -415,7 +433,8 @@ def replay(case):
     world = World(case["cls"], case["cfg"], case["files"], case["steps"],
                   missing=case.get("scenario") == "first_write_missing_file",
                   symlink=case.get("scenario") == "symlinked_file",
-                  deepcopied=case.get("scenario") == "deepcopied_handle")
+                  deepcopied=case.get("scenario") == "deepcopied_handle",
+                  mt_off_ctor=case.get("scenario") == "constructed_mt_off")
     try:
         how, _ = inject.run_in_child(world.scratch, world.action, tuple(case["point"]))
         v = world.judge()
